@@ -380,6 +380,15 @@ def correspond(ctx):
                 mism.append(entry)
         if len(mism) > 30:
             break
+    # histories on one rule object (implementation against the specification)
+    for case in history_cases(ctx):
+        st.count("history-" + case["how"])
+        ok, detail = history_oracle(case)
+        st.case(key(case), True)
+        if not ok:
+            mism.append({"case": case, "violation": True, "detail": detail, "what": detail})
+            if len(mism) > 30:
+                break
     # Consequent.load
     base = len(lines) - len(ltoks)
     for t, o in zip(ltoks, outs[base:]):
@@ -430,12 +439,80 @@ def load_oracle(case):
     return (got == want), f"Consequent.load('{' '.join(toks)}') gave {got}, the grammar gives {want}"
 
 
+# ------------------------------------------------------------------------------------------ histories on one rule object
+IMPLS = ["Minimum", "AlgebraicProduct", "BoundedDifference"]
+
+
+def history_cases(ctx):
+    """the same loaded rule triggered several times WITHOUT clearing the fuzzy outputs in between (Rule.trigger twice, a
+    rule block activated twice, one rule object listed in two blocks with different implications): every trigger adds its
+    own contributions and leaves the earlier ones as they were.  Hedges only on the last conclusion (so that the known
+    hedge leak F3 does not interfere)."""
+    rng = ctx.rng
+    HL = hedge_lists()
+    pool = [0.25, 0.5, 0.75, 1.0, 0.0, 0.125]
+    for _ in range(ctx.scale(250, 2500)):
+        k = rng.choice([1, 1, 2, 3])
+        cs = [{"var": rng.choice(OUTS), "hedges": [], "term": rng.choice(TERMS)} for _ in range(k)]
+        cs[-1]["hedges"] = rng.choice(HL)
+        steps = [{"degree": rng.choice(pool), "impl": rng.choice(IMPLS)} for _ in range(rng.choice([2, 2, 3]))]
+        yield {"mode": "history", "how": rng.choice(["trigger", "activate", "two-blocks"]), "conclusions": cs, "steps": steps}
+
+
+def history_observe(case):
+    e = engine_for(case)
+    rule = fl.Rule.create(text_of(case), e)
+    with np.errstate(all="ignore"):
+        try:
+            if case["how"] == "trigger":
+                for st in case["steps"]:
+                    rule.activation_degree = float(st["degree"])
+                    rule.trigger(getattr(fl, st["impl"])())
+            elif case["how"] == "activate":
+                rb = fl.RuleBlock("rb", activation=fl.General(), rules=[rule])
+                e.rule_blocks.append(rb)
+                for st in case["steps"]:
+                    rb.implication = getattr(fl, st["impl"])()
+                    e.input_variables[0].value = float(st["degree"])
+                    rb.activate()
+            else:
+                for i, st in enumerate(case["steps"]):
+                    e.rule_blocks.append(fl.RuleBlock(f"rb{i}", implication=getattr(fl, st["impl"])(), activation=fl.General(),
+                                                      rules=[rule]))
+                # the blocks are activated in order with the input changed in between (Engine.process without the clearing)
+                for rb, st in zip(e.rule_blocks, case["steps"]):
+                    e.input_variables[0].value = float(st["degree"])
+                    rb.activate()
+            return {o.name: [(t.term.name, [float(v) for v in np.atleast_1d(t.degree)], type(t.implication).__name__)
+                             for t in o.fuzzy.terms] for o in e.output_variables}
+        except Exception as ex:  # noqa: BLE001
+            return {"raised": f"{type(ex).__name__}: {ex}"[:200]}
+
+
+def history_oracle(case):
+    ob = history_observe(case)
+    if "raised" in ob:
+        return False, f"triggering '{text_of(case)}' repeatedly raised {ob['raised']}"
+    want = {o: [] for o in OUTS}
+    for st in case["steps"]:
+        one = expected({"mode": "trigger", "conclusions": case["conclusions"], "degree": st["degree"]})
+        for o in OUTS:
+            want[o] += [(t, ds, st["impl"]) for t, ds, _ in one[o]]
+    if not same(ob, want):
+        return False, (f"rule '{text_of(case)}' triggered {len(case['steps'])} times ({case['how']}; degrees and implications "
+                       f"{[(s['degree'], s['impl']) for s in case['steps']]}) without clearing: fuzzy outputs {ob}, each trigger "
+                       f"must add its own contributions and leave the earlier ones unchanged: {want}")
+    return True, "ok"
+
+
 _trigger_oracle = oracle
 
 
 def oracle(case):  # noqa: F811
     if case.get("mode") == "load":
         return load_oracle(case)
+    if case.get("mode") == "history":
+        return history_oracle(case)
     return _trigger_oracle(case)
 
 
@@ -445,6 +522,8 @@ _trigger_key = key
 def key(case):  # noqa: F811
     if case.get("mode") == "load":
         return "load:" + " ".join(case["tokens"])
+    if case.get("mode") == "history":
+        return f"history:{case['how']}:{text_of(case)}:{json.dumps(case['steps'])}"
     return _trigger_key(case)
 
 
@@ -452,5 +531,9 @@ def search(ctx):
     for case, _ in itertools.chain(((c, "corpus") for c in corpus_cases()), gen_cases(ctx)):
         ok, d = oracle(case)
         if not ok and key(case) != "F3:hedge-leak":
+            return [(case, d)]
+    for case in history_cases(ctx):
+        ok, d = oracle(case)
+        if not ok:
             return [(case, d)]
     return []
